@@ -98,6 +98,41 @@ pub fn first_candidate(n: usize, seed: u64) -> (Vec<i64>, Vec<i64>) {
     (f, g)
 }
 
+/// Number of (f, g) candidates key generation rejects for seed LE64(i) before the first one that passes
+/// the invertibility and Gram-Schmidt norm tests (the NTRU solver's own rare failures are not modelled),
+/// reproduced by drawing successive candidates from the same seeded stream through the sampler hook.
+pub fn candidate_rejections(n: usize, seed: u64, cap: usize) -> usize {
+    use rand::SeedableRng;
+    let mut rng = rand::rngs::StdRng::from_seed(seed_bytes(seed));
+    let sigma_star = 1.43300980528773;
+    let roots = crate::refmodel::poly::roots(n);
+    let mut count = 0;
+    while count < cap {
+        let mut poly = |rng: &mut rand::rngs::StdRng| -> Vec<i64> {
+            let samples: Vec<i64> = (0..4096).map(|_| falcon_rust::verif_hooks::sampler_z(0.0, sigma_star, sigma_star - 0.001, rng) as i64).collect();
+            samples.chunks(4096 / n).map(|c| c.iter().sum()).collect()
+        };
+        let f = poly(&mut rng);
+        let g = poly(&mut rng);
+        let invertible = !crate::refmodel::poly::eval_at_roots(&f, &roots).iter().any(|&x| x == 0);
+        if invertible && passes_gamma(&f, &g) {
+            break;
+        }
+        count += 1;
+    }
+    count
+}
+
+/// the `top` seeds of [from, from+count) with the most rejected candidates (long runs of key generation's
+/// rejection loop), most rejections first
+pub fn seeds_with_most_rejections(n: usize, from: u64, count: u64, top: usize) -> Vec<(u64, usize)> {
+    use rayon::prelude::*;
+    let mut v: Vec<(u64, usize)> = (from..from + count).into_par_iter().map(|s| (s, candidate_rejections(n, s, 400))).collect();
+    v.sort_by(|a, b| b.1.cmp(&a.1).then(a.0.cmp(&b.0)));
+    v.truncate(top);
+    v
+}
+
 /// seeds in [from, from+count) whose first candidate f is not invertible modulo q (key generation must
 /// reject it and draw again)
 pub fn seeds_with_noninvertible_first_f(n: usize, from: u64, count: u64, want: usize) -> Vec<u64> {
@@ -184,8 +219,8 @@ pub fn slot_boundary_seeds(n: usize) -> Vec<(u64, usize)> {
 /// resampled. They only steer coverage; the oracles are the property's own.
 pub fn boundary_seeds(n: usize) -> Vec<u64> {
     match n {
-        // +127, +128, beyond
-        512 => vec![6703, 8213, 1052],
+        // beyond (G = 130), +128, +127
+        512 => vec![1052, 8213, 6703],
         // F or G = -128, -128, +128, +128, -127, +127, f or g = +15, -15 (edge of the 5-bit field), beyond
         _ => vec![696, 6890, 14, 633, 370, 2371, 3819, 4783, 1031],
     }
